@@ -775,11 +775,11 @@ func c11Ensure(c *Ctx) {
 		return false, false
 	})
 	offCT, nRet := core.UnguardedSinks(ect, func(in ssa.Instruction) bool {
-		ret, ok := in.(*ssa.Return)
+		ret, ok := core.AsReturn(in)
 		if !ok || len(ret.Results) != 1 {
 			return false
 		}
-		b, isC := core.ConstBool(ret.Results[0])
+		b, isC := core.ConstBool(core.Res(ret, 0))
 		return !isC || b
 	}, gCT)
 	r.Eval(nCT + nRet)
@@ -891,11 +891,11 @@ func c11OptionalAuth(c *Ctx) {
 		// every `return true`-capable return derives from the two match results only
 		for _, b := range ipr.Blocks {
 			for _, in := range b.Instrs {
-				ret, ok := in.(*ssa.Return)
+				ret, ok := core.AsReturn(in)
 				if !ok || len(ret.Results) != 1 {
 					continue
 				}
-				for _, l := range core.FlattenPhi(ret.Results[0]) {
+				for _, l := range core.FlattenPhi(core.Res(ret, 0)) {
 					if _, isConst := core.ConstBool(l); isConst {
 						if bv, _ := core.ConstBool(l); !bv {
 							continue
@@ -920,11 +920,11 @@ func c11OptionalAuth(c *Ctx) {
 		bad := 0
 		for _, b := range ipr.Blocks {
 			for _, in := range b.Instrs {
-				ret, ok := in.(*ssa.Return)
+				ret, ok := core.AsReturn(in)
 				if !ok || len(ret.Results) != 1 {
 					continue
 				}
-				phi, isPhi := ret.Results[0].(*ssa.Phi)
+				phi, isPhi := core.Res(ret, 0).(*ssa.Phi)
 				if !isPhi {
 					continue
 				}
@@ -997,11 +997,11 @@ func c11OptionalAuth(c *Ctx) {
 		return false, false
 	})
 	offT, nRet := core.UnguardedSinks(oat, func(in ssa.Instruction) bool {
-		ret, ok := in.(*ssa.Return)
+		ret, ok := core.AsReturn(in)
 		if !ok || len(ret.Results) != 1 {
 			return false
 		}
-		b, isC := core.ConstBool(ret.Results[0])
+		b, isC := core.ConstBool(core.Res(ret, 0))
 		return !isC || !b // may return false
 	}, g)
 	r.Eval(n2 + nRet)
@@ -1090,8 +1090,8 @@ func c11WrapperShapes(c *Ctx) {
 		ok := false
 		for _, b := range oah.Blocks {
 			for _, in := range b.Instrs {
-				if ret, isRet := in.(*ssa.Return); isRet && len(ret.Results) == 1 {
-					for _, l := range core.FlattenPhi(ret.Results[0]) {
+				if ret, isRet := core.AsReturn(in); isRet && len(ret.Results) == 1 {
+					for _, l := range core.FlattenPhi(core.Res(ret, 0)) {
 						if core.TypeKey(l.Type()) == "*home.authHandler" {
 							ok = true
 						} else {
